@@ -531,7 +531,7 @@ class C07(Property):
                     rt = compose(r)
                     try:
                         cur = cur.navigate(URL(rt) if case.get('as_url') else rt)
-                        obs['steps'].append(cur.to_text())
+                        obs['steps'].append(self.dump(cur))
                     except CaseTimeout:
                         raise
                     except Exception as e:
@@ -540,12 +540,12 @@ class C07(Property):
                 obs['base_after'] = self.dump(base)
                 n = URL(base_text)
                 n.normalize()
-                t1 = n.to_text()
+                t1 = self.dump(n)
                 n.normalize()
-                t2 = n.to_text()
+                t2 = self.dump(n)
                 m = URL(base_text)
                 m.normalize(with_case=False)
-                obs['norm'] = [t1, t2, m.to_text()]
+                obs['norm'] = [t1, t2, self.dump(m)]
         except CaseTimeout:
             obs['exc'] = 'CaseTimeout'
         except Exception as e:
@@ -553,13 +553,18 @@ class C07(Property):
         return obs
 
     def render(self, case, obs):
-        def t(s):
-            if isinstance(s, dict):
-                return 'X' + s['exc']
-            return 'T' + s
+        def t(d):
+            if 'exc' in d:
+                return 'X' + d['exc']
+            if d['host']:
+                return 'T' + d['text']
+            # without a host the text is not compared (how to_text() writes an empty authority is property
+            # C06's business): the public components instead
+            return 'C' + '|'.join([d['scheme'] or '', d['user'] or '', d['pw'] or '', str(d['port'] or 0), d['path'],
+                                   d['query'], d['frag']])
         if 'exc' in obs:
             return 'X' + obs['exc']
-        toks = [t(obs['base_after']['text'])] + [t(s) for s in obs['steps']] + ['N'] + [t(s) for s in obs['norm']]
+        toks = [t(obs['base_after'])] + [t(s) for s in obs['steps']] + ['N'] + [t(s) for s in obs['norm']]
         return ' '.join(toks)
 
     # ------------------------------------------------------------------ oracle (independent of the model)
@@ -594,16 +599,18 @@ class C07(Property):
             return Failure('base_modified', 'base changed by navigate: %r -> %r' % (obs['base_before'], obs['base_after']))
         # normalize() is idempotent
         if obs['norm'][0] != obs['norm'][1]:
-            return Failure('normalize_not_idempotent', 'normalize() twice: %r then %r' % (obs['norm'][0], obs['norm'][1]))
+            return Failure('normalize_not_idempotent', 'normalize() twice: %r then %r' % (
+                obs['norm'][0]['text'], obs['norm'][1]['text']))
         cur = base_text
         judged = 0
         synced = True
         for i, r in enumerate(case['refs']):
             if i >= len(obs['steps']):
                 return Failure('missing', 'no observation for step %d' % i)
-            got = obs['steps'][i]
-            if isinstance(got, dict):
-                return Failure('raises', 'navigate(%r) from %r raised %s' % (compose(r), cur, got['exc']))
+            gd = obs['steps'][i]
+            if 'exc' in gd:
+                return Failure('raises', 'navigate(%r) from %r raised %s' % (compose(r), cur, gd['exc']))
+            got = gd['text']
             rt = compose(r)
             # once a step falls outside the statement's domain the rest of the history is not judged against
             # the RFC (the implementation's text need not parse back to the object it came from)
@@ -611,11 +618,12 @@ class C07(Property):
             self.stats['step_' + str(kind)] = self.stats.get('step_' + str(kind), 0) + 1
             if rfc_parse(rt)[0] is None:
                 # the result contains no '.' or '..' segments and stays under the root
-                gp = rfc_parse(got)
-                if dot_segments(gp[2]):
+                if [s for s in gd['parts'] if s in ('.', '..')]:
                     return Failure('dot_segments', 'step %d: %r + %r -> %r keeps dot segments' % (i, cur, rt, got))
-                if gp[1] is not None and not (gp[2] == '' or gp[2].startswith('/')):
-                    return Failure('unrooted', 'step %d: %r + %r -> %r has a rootless path under an authority' % (i, cur, rt, got))
+                gp = rfc_parse(got)
+                if gd['host'] and (dot_segments(gp[2]) or not (gp[2] == '' or gp[2].startswith('/'))):
+                    return Failure('unrooted', 'step %d: %r + %r -> %r has dot segments or a rootless path under '
+                                   'an authority' % (i, cur, rt, got))
             if kind == 'rel':
                 want = rfc_resolve(cur, rt)
                 if canon(got) != canon(want):
